@@ -262,6 +262,14 @@ class Evaluator(object):
                     parts.append(Rat.const(1 if hit == isinstance(op, ast.In) else 0))
                     left = right
                     continue
+                # x in [a, b] is x == a or x == b: folds when every comparison folds (instances of the program's Axis / Field classes)
+                if right and all(isinstance(r, Rat) for r in right):
+                    eqs = [form.apply("cmp_eq", [left, r]).const_value() for r in right]
+                    if any(e is not None and e != 0 for e in eqs) or all(e is not None for e in eqs):
+                        hit = any(e is not None and e != 0 for e in eqs)
+                        parts.append(Rat.const(1 if hit == isinstance(op, ast.In) else 0))
+                        left = right
+                        continue
                 parts.append(form.apply("in" if isinstance(op, ast.In) else "notin",
                                         [left, tuple(r for r in right if isinstance(r, Rat))]))
                 left = right
@@ -326,6 +334,13 @@ class Evaluator(object):
 
     def ev_Call(self, node, path):
         fn = dotted(node.func)
+        if isinstance(node.func, ast.Name) and isinstance(path.env.get(node.func.id), Rat):
+            # a local name (typically a parameter of an inlined helper) bound to a bound method of self: `core = self._plot_core;
+            # core(data)` is the call self._plot_core(data) - the event carries the callee, not the local spelling
+            fa = path.env[node.func.id].as_atom()
+            if fa is not None and not fa.args and fa.func.startswith("$" + self.selfname + ".") and fa.func.count(".") == 1 \
+                    and fa.func != "$" + node.func.id:
+                fn = fa.func[1:]
         rname = self.module.resolve(fn) if fn else None
         args = []
         for a in node.args:
@@ -358,7 +373,7 @@ class Evaluator(object):
                 if isinstance(attr_name, str) and attr_name.isidentifier():
                     # getattr(x, 'name') with a literal name is x.name
                     return self.ev(ast.copy_location(ast.Attribute(value=node.args[0], attr=attr_name, ctx=ast.Load()), node), path)
-        self._event("call", path, node, name=rname or norm(node.func), args=args, kwargs=kwargs, recv=recv)
+        self._event("call", path, node, name=rname or fn or norm(node.func), args=args, kwargs=kwargs, recv=recv)
         call_event = self.events[-1] if self.record and self.events else None
         if self.call_hook is not None:
             r = self.call_hook(self, node, rname, args, kwargs, path)
